@@ -43,7 +43,7 @@ for _n, _ps in {
     "ruleToday": "C03", "ruleNow": "C03", "ruleTomorrow": "C03", "ruleAfterTomorrow": "C03", "ruleYesterday": "C03",
     "ruleBeforeYesterday": "C03", "ruleEOM": "C03", "ruleEOY": "C03", "ruleAtDOW": "C03", "ruleNextDOW": "C03",
     "ruleDOWNextWeek": "C03", "ruleLatentDOW": "C03 C04", "ruleNamedDOW": "C03 C04",
-    "ruleLatentDOM": "C04", "ruleLatentDOY": "C04", "ruleLatentPOD": "C04", "ruleDOWDOM": "C04",
+    "rulePOD": "C04 C06 C19", "ruleLatentDOM": "C04", "ruleLatentDOY": "C04", "ruleLatentPOD": "C04", "ruleDOWDOM": "C04",
     "ruleDOM1": "C05 C04", "ruleDOM2": "C05 C04", "ruleMonthOrdinal": "C05", "ruleNamedMonth": "C05", "ruleYear": "C05",
     "ruleDOMMonth": "C05 C04 C02", "ruleDOMMonth2": "C05 C04 C02", "ruleMonthDOM": "C05 C04 C02",
     "ruleDDMM": "C05 C04 C02", "ruleMMDD": "C05 C04 C02", "ruleDOYYear": "C05 C02", "ruleDDMMYYYY": "C05 C02",
